@@ -120,6 +120,8 @@ def gen_scenario(rng):
         for nc in ([False, True] if rng.random() < 0.6 else [rng.random() < 0.3]):
             requests.append({'obj': o, 'conf': c, 'no_color': nc, 'mode': mode, 'via': via,
                              'long_lived_conf': long_lived})
+            if via == 'global' and objects[o]['kind'] != 'hdoc' and rng.random() < 0.5:
+                requests[-1]['switch_conf'] = confs[(c + 1) % len(confs)]
     return {'objects': objects, 'confs': confs, 'requests': requests}
 
 
